@@ -54,9 +54,10 @@ Theorem C09_unusable_solution_line_is_diagnosed :
 Proof. exact solution_line_failure_exits_1. Qed.
 Print Assumptions C09_unusable_solution_line_is_diagnosed.
 
-(* a ValueError-family failure (RepositoryInitializationError included) anywhere in build_repo ends the same way; *)
+(* a ValueError-family failure (RepositoryInitializationError included) or an OSError (a file given where a
+   directory is needed and vice versa; after the /repo fix of compile_main) anywhere in build_repo ends the same way; *)
 Theorem C09_unusable_repository_argument_is_diagnosed_partial :
-  forall e, value_family e = true -> build_repo_failure e = Exits 1.
+  forall e, repo_arg_family e = true -> build_repo_failure e = Exits 1.
 Proof. exact build_repo_value_failure_exits_1. Qed.
 Print Assumptions C09_unusable_repository_argument_is_diagnosed_partial.
 
@@ -71,3 +72,10 @@ Theorem C09_refuted_internal_error_reaches_the_user :
   compile_failure EAssertionError = Propagates EAssertionError /\ compile_failure EKeyError = Propagates EKeyError.
 Proof. exact compile_internal_error_escapes. Qed.
 Print Assumptions C09_refuted_internal_error_reaches_the_user.
+
+(* what SourceRepository.__init__, FindLinksRepository._find_all_links and build_repo raise for an unusable
+   argument (classes read from the source on every run) all end as a diagnostic and exit status 1 *)
+Theorem C09_unusable_source_findlinks_arguments_are_diagnosed :
+  Forall (fun e => build_repo_failure e = Exits 1) repo_argument_failures.
+Proof. exact repo_argument_failures_exit_1. Qed.
+Print Assumptions C09_unusable_source_findlinks_arguments_are_diagnosed.
